@@ -42,7 +42,7 @@ class Skip(Exception):
 class Fault(object):
     def __init__(self, kind, i, col=None, pad="lead"):
         """col: 1-based column at which the offending token is planted (None = natural position);
-        pad: lead | mid | tab (how the column is reached)."""
+        pad: lead | mid | tab | midtab (how the column is reached)."""
         self.kind, self.i, self.pad = kind, i, pad
         d = FAULTS[kind]
         s = d["stmt"] % {"i": i}
@@ -62,6 +62,11 @@ class Fault(object):
             return self.stmt
         if self.pad == "mid":
             return self.stmt[:self.off] + " " * extra + self.stmt[self.off:]
+        if self.pad == "midtab":        # tabs inside the line, then spaces (tab stops every TABSTOP columns)
+            t, p0 = self.col - 1, self.off
+            ntab = t // TABSTOP - p0 // TABSTOP
+            fill = "\t" * ntab + " " * (t % TABSTOP) if ntab > 0 else " " * extra
+            return self.stmt[:self.off] + fill + self.stmt[self.off:]
         if self.pad == "tab":
             return "\t" * (extra // TABSTOP) + " " * (extra % TABSTOP) + self.stmt
         return " " * extra + self.stmt
